@@ -31,7 +31,8 @@ OBLIGATIONS = {"batch:exhaustive": 100, "batch:random-large": 20,
                "opm:roundtrip": 50, "opm:roundtrip-renamed": 10,
                "opm:find": 50, "opm:bare-scalar": 5, "opm:prefix-values": 5,
                "opm:rebuilt-manager": 20, "batch:caller-modifies-result": 20,
-               "opm:find-multi": 50, "opm:find-multi-equal-values": 5}
+               "opm:find-multi": 50, "opm:find-multi-equal-values": 5,
+               "opm:rebuilt-same-size": 20, "opm:mixed-kinds": 5}
 
 
 def _hy():
@@ -177,6 +178,11 @@ def gen_options(rng, ctx):
             v = [int(rng.integers(-5, 20)), "single", 2.5][int(rng.integers(0, 3))]
             opts[str(nm)] = v
             ctx.tag("opm:bare-scalar")
+        elif r < 0.25:
+            # one option whose values are of different kinds
+            ctx.tag("opm:mixed-kinds")
+            opts[str(nm)] = [[1, "base", 2], [1, 2.5], ["a", 3, 4.5, "b"],
+                             [0, "zero", 10]][int(rng.integers(0, 4))]
         elif r < 0.6:
             pool = [1, 10, 11, 100, 101, -1, -10, 0, 2, 21, 12, 5, 7]
             if rng.random() < 0.5:
@@ -233,6 +239,20 @@ def run_opm_case(ctx, case):
         opm.from_cartesian_product(zz_other=[1, 2, 3], **{k: as_list(v)[:1]
                                                           for k, v in opts.items()})
         opm.from_cartesian_product(**opts)
+    elif len(str(opts)) % 3 == 1:
+        # ... or a grid with the same names and the same number of tasks but other
+        # values, and was searched before being rebuilt
+        ctx.tag("opm:rebuilt-same-size")
+        alt = {k: [f"zz{j}" if isinstance(x, str) else 100000 + j
+                   for j, x in enumerate(as_list(v))] for k, v in opts.items()}
+        try:
+            opm.from_cartesian_product(**alt)
+            k0 = list(alt)[0]
+            opm.find(**{k0: alt[k0][0]})
+            if opm.ntasks:
+                opm.get_task(0)
+        except Exception:
+            pass
     opm.from_cartesian_product(**opts)
     ctx.api("from_cartesian_product")
     keys = list(opts.keys())
